@@ -458,6 +458,11 @@ func definitelyNonNilErr(v ssa.Value, at *ssa.BasicBlock, depth int) bool {
 		return !x.IsNil()
 	case *ssa.MakeInterface:
 		return true
+	case *ssa.UnOp:
+		// a package-level sentinel error (var ErrX = errors.New(...)); never reassigned by convention
+		if g, ok := x.X.(*ssa.Global); ok && x.Op == token.MUL && strings.HasPrefix(g.Name(), "Err") {
+			return true
+		}
 	case *ssa.Call:
 		switch calleeName(&x.Call) {
 		case "fmt.Errorf", "errors.New", "errors.Join":
